@@ -156,7 +156,7 @@ func (c *copier) prepareTargetDir(srcFollowed, src, destPath string, copyDirCont
 		}
 	}
 
-	if (!copyDirContents && fiSrc.IsDir() && fiDest != nil) || (!fiSrc.IsDir() && fiDest != nil && fiDest.IsDir()) {
+	if (!copyDirContents && fiSrc.IsDir() && fiDest != nil && fiDest.IsDir()) || (!fiSrc.IsDir() && fiDest != nil && fiDest.IsDir()) {
 		destPath = filepath.Join(destPath, filepath.Base(filepath.Join("/", src)))
 	}
 
